@@ -59,9 +59,9 @@ def pad(content: str, lang: str) -> str:
     return "\n".join(lines) + "\n"
 
 
-def lint_all(root: Path, names: list[str]) -> list[dict]:
+def lint_all(root: Path, names: list[str], linter=None) -> list[dict]:
     from src.api import Linter
-    vs = Linter(project_root=str(root)).lint(str(root))
+    vs = (linter or Linter(project_root=str(root))).lint(str(root))
     out = Counter()
     for v in vs:
         rel = drive.rel(str(v.file_path), root)
@@ -245,6 +245,39 @@ def job(j: dict) -> dict:
         ig._CACHED_PARSER = None      # a fresh process per project (singleton keyed by root anyway)
         after = lint_all(root, names)
         out.append({"case": case, "d": d, "after": after})
+    # the same project edited in place and linted again by the same process (one ignore parser, one set of
+    # rule objects for the whole sequence): a directive's effect must follow the file's current text
+    rootr = Path(j["root"]) / "reuse"
+    rootr.mkdir()
+    drive.write_tree(rootr, padded)
+    (rootr / ".thailint.yaml").write_text(CONFIG)
+    os.chdir(rootr)
+    import src.linter_config.ignore as ig2
+    ig2._CACHED_PARSER = None
+    from src.api import Linter as _Linter
+    held = _Linter(project_root=str(rootr))
+    inplace = [c for c in j["cases"] if c["form"] in ("sameLine", "nextLine", "block", "fileHeader")]
+
+    def pick(form, placement, spelling):
+        return [c for c in inplace if (c["form"], c["placement"], c["spelling"]) == (form, placement, spelling)]
+
+    # alternate file-level and line-level directives so that anything remembered per file goes stale
+    seq = (pick("sameLine", "on", "fullId") + pick("fileHeader", "header", "fullId") + pick("nextLine", "before", "fullId")
+           + pick("fileHeader", "header", "bare") + pick("block", "around", "linterPrefix") + pick("fileHeader", "body", "fullId")
+           + pick("sameLine", "on", "otherRule") + pick("fileHeader", "header", "linterPrefix"))
+    import random as _random
+    rnd = _random.Random(j["root"])
+    seq += rnd.sample(inplace, min(4, len(inplace)))
+    if rnd.random() < 0.5:
+        seq = seq[1:] + seq[:1]
+    for ci, case in enumerate(seq):
+        built = build_case(base, linter, lang, main_lines, case)
+        if built is None:
+            continue
+        lines, d = built
+        (rootr / main).write_text("\n".join(lines) + "\n")
+        after = lint_all(rootr, names, held if ci % 2 == 0 else None)
+        out.append({"case": dict(case, reuse=ci + 1), "d": d, "after": after})
     return {"base": base, "runs": out}
 
 
